@@ -77,14 +77,24 @@ SMALL_RHO = st.one_of(
 def tracker_sets(draw, min_n=1, max_n=4, jit=False):
     pool = draw(st.lists(st.builds(lambda r: {"kind": "const", "rho": r, "ts": None, "route": "num"}, SMALL_RHO),
                          min_size=1, max_size=2))
-    n = draw(st.integers(min_n, max_n))
-    general = sc.interrupt_specs(max_x=60.0)
+    n = draw(st.sampled_from([k for k in (1, 2, 2, 3, 3, 4, 4) if min_n <= k <= max_n]))
+    general = sc.interrupt_specs(("const", "fixed", "fixed", "log", "geom"), max_x=60.0)
     out = []
     for _ in range(n):
         intr = draw(st.one_of(st.sampled_from(pool), st.sampled_from(pool),
-                              sc.interrupt_specs(("const",), rho_ge_1=True), general))
-        out.append({"kind": draw(st.sampled_from(TRACKER_KINDS)), "intr": intr,
-                    "func": "copy" if jit else draw(st.sampled_from(["copy", "copy", "stats", "laplace"]))})
+                              sc.interrupt_specs(("const",), rho_ge_1=True), sc.interrupt_specs(("const",)),
+                              general, general))
+        t = {"kind": draw(st.sampled_from(TRACKER_KINDS)), "intr": intr,
+             "func": "copy" if jit else draw(st.sampled_from(["copy", "copy", "stats", "laplace"]))}
+        if out and draw(st.integers(0, 7)) == 0:
+            # hand the previous tracker's interrupt *object* to this tracker as well
+            prev = dict(out[-1]["intr"])
+            if prev["kind"] != "geom" or prev.get("route") == "obj":
+                if "route" in prev and prev["kind"] != "geom":
+                    prev["route"] = "obj"
+                out[-1] = dict(out[-1], intr=prev)
+                t.update(intr=prev, share=True)
+        out.append(t)
     return out
 
 
@@ -210,6 +220,8 @@ def _labels(case):
     for t in case["trackers"]:
         labs.append("intr:" + sc.interrupt_label(t["intr"]))
         labs.append("tracker:" + t["kind"])
+        if t.get("share"):
+            labs.append("intr:shared-object")
     return labs
 
 
